@@ -51,6 +51,13 @@ def Err.name : Err → String
 
 abbrev R := Except Err
 
+instance {ε α : Type} [DecidableEq ε] [DecidableEq α] : DecidableEq (Except ε α) := fun a b =>
+  match a, b with
+  | .ok x, .ok y => if h : x = y then isTrue (by rw [h]) else isFalse (fun e => h (Except.ok.inj e))
+  | .error x, .error y => if h : x = y then isTrue (by rw [h]) else isFalse (fun e => h (Except.error.inj e))
+  | .ok _, .error _ => isFalse (fun e => by cases e)
+  | .error _, .ok _ => isFalse (fun e => by cases e)
+
 instance : Coe String Str := ⟨String.toList⟩
 
 /-- association-list lookup (first binding wins), the model of `dict[key]` on insertion-ordered
